@@ -82,6 +82,40 @@ pub fn project_schema(schema: &Schema) -> J {
     json!({"ets": ets, "acts": acts})
 }
 
+/// every annotation of a fragment, read off its lossless JSON form: [path, key, value], sorted
+fn annotations_of(frag: SchemaFragment) -> J {
+    fn walk(v: &J, path: &str, out: &mut Vec<J>) {
+        match v {
+            J::Object(m) => {
+                for (k, x) in m.iter() {
+                    if k == "annotations" {
+                        if let J::Object(a) = x {
+                            for (ak, av) in a.iter() {
+                                out.push(json!([path, ak, av]));
+                            }
+                        }
+                    } else {
+                        walk(x, &format!("{path}/{k}"), out);
+                    }
+                }
+            }
+            J::Array(a) => {
+                for (i, x) in a.iter().enumerate() {
+                    walk(x, &format!("{path}/{i}"), out);
+                }
+            }
+            _ => {}
+        }
+    }
+    let mut out = vec![];
+    match frag.to_json_value() {
+        Ok(v) => walk(&v, "", &mut out),
+        Err(e) => out.push(json!(["?", "error", e.to_string()])),
+    }
+    out.sort_by_key(|x| x.to_string());
+    J::Array(out)
+}
+
 fn short(e: impl std::fmt::Display) -> String {
     let s = e.to_string();
     s.chars().take(160).collect()
@@ -101,7 +135,8 @@ fn loaded(r: Result<Schema, String>, keep: &mut Vec<(String, Schema)>, label: &s
 pub fn run(case: &J) -> R<J> {
     let s = &case["s"];
     let style = Style(case.get("style").and_then(|x| x.as_u64()).unwrap_or(0));
-    let js = unresolved_json(s)?;
+    let js = unresolved_json(s, style)?;
+    let mut ann = Map::new();
     let cs = unresolved_cedar(s, style)?;
     let mut keep: Vec<(String, Schema)> = vec![];
     let mut steps = Map::new();
@@ -114,12 +149,16 @@ pub fn run(case: &J) -> R<J> {
             steps.insert("JJ".into(), json!(["err", "fragment", short(e_dummy())]));
         }
         Ok(frag) => {
+            ann.insert("J".into(), annotations_of(frag.clone()));
             match frag.to_cedarschema() {
                 Err(e) => {
                     steps.insert("JC".into(), json!(["err", "translate", short(e)]));
                 }
                 Ok(text) => {
                     steps.insert("JC".into(), loaded(Schema::from_cedarschema_str(&text).map(|(s, _)| s).map_err(short), &mut keep, "JC"));
+                    if let Ok((f2, _)) = SchemaFragment::from_cedarschema_str(&text) {
+                        ann.insert("JC".into(), annotations_of(f2));
+                    }
                     steps.insert("JC_text".into(), json!(text));
                 }
             }
@@ -128,6 +167,9 @@ pub fn run(case: &J) -> R<J> {
                     steps.insert("JJ".into(), json!(["err", "translate", short(e)]));
                 }
                 Ok(v) => {
+                    if let Ok(f2) = SchemaFragment::from_json_value(v.clone()) {
+                        ann.insert("JJ".into(), annotations_of(f2));
+                    }
                     steps.insert("JJ".into(), loaded(Schema::from_json_value(v).map_err(short), &mut keep, "JJ"));
                 }
             }
@@ -145,12 +187,16 @@ pub fn run(case: &J) -> R<J> {
                     steps.insert("CJ".into(), json!(["err", "fragment", short(e)]));
                 }
                 Ok((frag, _)) => {
+                    ann.insert("C".into(), annotations_of(frag.clone()));
                     match frag.to_cedarschema() {
                         Err(e) => {
                             steps.insert("CC".into(), json!(["err", "translate", short(e)]));
                         }
                         Ok(t2) => {
                             steps.insert("CC".into(), loaded(Schema::from_cedarschema_str(&t2).map(|(s, _)| s).map_err(short), &mut keep, "CC"));
+                            if let Ok((f2, _)) = SchemaFragment::from_cedarschema_str(&t2) {
+                                ann.insert("CC".into(), annotations_of(f2));
+                            }
                         }
                     }
                     match frag.to_json_value() {
@@ -158,6 +204,9 @@ pub fn run(case: &J) -> R<J> {
                             steps.insert("CJ".into(), json!(["err", "translate", short(e)]));
                         }
                         Ok(v) => {
+                            if let Ok(f2) = SchemaFragment::from_json_value(v.clone()) {
+                                ann.insert("CJ".into(), annotations_of(f2));
+                            }
                             steps.insert("CJ".into(), loaded(Schema::from_json_value(v).map_err(short), &mut keep, "CJ"));
                         }
                     }
@@ -169,6 +218,9 @@ pub fn run(case: &J) -> R<J> {
                     steps.insert("CR".into(), json!(["err", "translate", short(e)]));
                 }
                 Ok((v, _)) => {
+                    if let Ok(f2) = SchemaFragment::from_json_value(v.clone()) {
+                        ann.insert("CR".into(), annotations_of(f2));
+                    }
                     steps.insert("CR".into(), loaded(Schema::from_json_value(v).map_err(short), &mut keep, "CR"));
                 }
             }
@@ -183,7 +235,7 @@ pub fn run(case: &J) -> R<J> {
             lib_eq.insert(format!("{l0}={l}"), json!(v0 == v));
         }
     }
-    let mut out = json!({"ev": "SchemaSyn", "s": s, "steps": steps, "lib_eq": lib_eq, "json": js, "style": style.0});
+    let mut out = json!({"ev": "SchemaSyn", "s": s, "steps": steps, "lib_eq": lib_eq, "ann": ann, "json": js, "style": style.0});
     if let Some(t) = cs {
         out["cedar_text"] = json!(t);
     }
